@@ -720,23 +720,30 @@ class MessageType:
         # kingdoms/{kingdom}/phyla/{phylum}
         # becomes the regex
         # ^kingdoms/(?P<kingdom>.+?)/phyla/(?P<phylum>.+?)$
-        parsing_regex_str = (
-            "^"
-            + self.PATH_ARG_RE.sub(
-                # We can't just use (?P<name>[^/]+) because segments may be
-                # separated by delimiters other than '/'.
-                # Multiple delimiter characters within one schema are allowed,
-                # e.g.
-                # as/{a}-{b}/cs/{c}%{d}_{e}
-                # This is discouraged but permitted by AIP4231
-                lambda m: "(?P<{name}>.+?)".format(name=m.groups()[0]),
-                self.resource_path or "",
-            )
-            + "$"
-        )
+        path = self.resource_path or ""
         # Special case for wildcard resource names
-        if parsing_regex_str == "^*$":
-            parsing_regex_str = "^.*$"
+        if path == "*":
+            return "^.*$"
+
+        # Literal text between the variables (collection ids and delimiters
+        # such as '.') must match itself, not act as regex syntax.
+        def literal(text: str) -> str:
+            return re.sub(r"([.^$*+?{}\[\]\\|()])", r"\\\1", text)
+
+        pieces: List[str] = []
+        last = 0
+        for m in self.PATH_ARG_RE.finditer(path):
+            pieces.append(literal(path[last : m.start()]))
+            # We can't just use (?P<name>[^/]+) because segments may be
+            # separated by delimiters other than '/'.
+            # Multiple delimiter characters within one schema are allowed,
+            # e.g.
+            # as/{a}-{b}/cs/{c}%{d}_{e}
+            # This is discouraged but permitted by AIP4231
+            pieces.append("(?P<{name}>.+?)".format(name=m.groups()[0]))
+            last = m.end()
+        pieces.append(literal(path[last:]))
+        parsing_regex_str = "^" + "".join(pieces) + "$"
 
         return parsing_regex_str
 
